@@ -3,7 +3,7 @@
    (NinjaBuildElement.write), command_str (NinjaRule), escape_extra_args, bs_norm,
    as_meson_exe (Backend.as_meson_exe_cmdline).  Decoders (reference semantics):
    ninja_eval, sh_tokens (/bin/sh), gcc_rsp_args (gcc @file), run_route. *)
-From MV Require Import Base.Strs Quote.Sh Quote.Ninja Quote.Rsp Quote.Rule Quote.Spec Quote.Proofs.
+From MV Require Import Base.Strs Quote.Sh Quote.Ninja Quote.Rsp Quote.Rule Quote.Spec Quote.Templ Quote.Proofs.
 
 (* "arrives in the executed process's argv unchanged - same bytes, same count, same relative
    order - whatever it contains": the shell layer, for ALL argument lists (no guard at all:
@@ -143,3 +143,94 @@ Theorem C03_custom_command_argv : forall x : exe_in,
     Ran (env_dict (x_env x)) (x_workdir x) (x_capture x) (x_feed x) (x_exe_cmd x ++ x_args x).
 Proof. exact custom_command_argv. Qed.
 Print Assumptions C03_custom_command_argv.
+
+(* ---------------------------------------------------------------- extension round *)
+
+(* the _RSP rule's own command line `<command words> @$out.rsp`: after ninja and /bin/sh the
+   compiler gets the command words followed by the single word @<out>.rsp *)
+Theorem C03_rsp_command_tokens : forall (env : list (str * str)) (items : list citem) (vals : str -> list tok),
+  forallb citem_ok items = true ->
+  (forall n, In (CVar n) items -> sh_tokens (lookup env n) = ShOk (vals n)) ->
+  forallb sh_safe (lookup env s_out) = true ->
+  exists cs, rsp_command (map citem_ritem items) = QOk cs /\
+             ninja_sh env cs =
+               Some (concat (map (fun it => match it with CLit s => [tok_of s] | CVar n => vals n end) items)
+                     ++ [W (64%N :: lookup env s_out ++ s_dot_rsp)]).
+Proof. exact rsp_command_tokens. Qed.
+Print Assumptions C03_rsp_command_tokens.
+
+(* "through a response file", whole path: command line by ninja + /bin/sh, rspfile_content by
+   ninja, @file expansion by GCC: the compiler's arguments are the command words, then the
+   rule's argument words and, for each $VAR, exactly the element list stored under VAR *)
+Theorem C03_rsp_statement_argv : forall (fenv env : list (str * str)) (cmdw : list str) (aitems : list citem) (elems : str -> list str),
+  forallb citem_ok (map CLit cmdw) = true -> no_andand cmdw = true ->
+  forallb citem_ok aitems = true ->
+  (forall n, In (CVar n) aitems ->
+     exists line, write_elems QfRsp true (elems n) = QOk line /\ ninja_eval fenv line = NOk (lookup env n)) ->
+  forallb sh_safe (lookup env s_out) = true ->
+  forallb (fun a => negb (str_eqb a (64%N :: lookup env s_out ++ s_dot_rsp))) cmdw = true ->
+  exists cs cc content argv,
+    rsp_command (map citem_ritem (map CLit cmdw)) = QOk cs /\
+    rspfile_content (map citem_ritem aitems) = QOk cc /\
+    ninja_eval env cc = NOk content /\
+    option_map split_cmds (ninja_sh env cs) = Some [argv] /\
+    expand_at (lookup env s_out ++ s_dot_rsp) content argv =
+      cmdw ++ concat (map (fun it => match it with CLit s => [s] | CVar n => elems n end) aitems).
+Proof. exact rsp_statement_argv. Qed.
+Print Assumptions C03_rsp_statement_argv.
+
+(* build lines (ninja's path mode): a list of output / input / dependency names written on the
+   `build` line is read back by ninja as exactly that list, up to the terminator ... *)
+Theorem C03_path_list_roundtrip : forall (ps : list str) (tail : str),
+  forallb pathok ps = true -> tail_ok tail ->
+  ninja_paths (qpaths ps ++ tail) = POk ps tail /\ ninja_paths (qpaths ps ++ 32%N :: tail) = POk ps tail.
+Proof. intros ps tail H T. split; [apply path_list_roundtrip | apply path_list_roundtrip_blank]; assumption. Qed.
+Print Assumptions C03_path_list_roundtrip.
+
+(* ... and the `build` line NinjaBuildElement.write emits is made of exactly such lists, of the
+   names with their backslashes turned into slashes (the established build-line rewrite) *)
+Theorem C03_build_line_form : forall (outs imp : list str) (rule : str) (ins deps ords : list str),
+  forallb pathok outs = true -> forallb pathok imp = true -> forallb pathok ins = true ->
+  forallb pathok deps = true -> forallb pathok ords = true ->
+  build_line outs imp rule ins deps ords =
+    QOk (s2l "build " ++ qpaths (map bs_slash outs) ++ seg (s2l " | ") imp ++ s2l ": " ++ bs_slash rule ++ [32%N] ++
+         qpaths (map bs_slash ins) ++ seg (s2l " | ") deps ++ seg (s2l " || ") ords ++ [10%N]).
+Proof. exact build_line_form. Qed.
+Print Assumptions C03_build_line_form.
+
+(* "The only rewrites are the established ones: @TEMPLATE@ placeholders are substituted ...":
+   substitute_values leaves every command without an @ untouched (same strings, count, order),
+   for every template dictionary, and never raises on it *)
+Theorem C03_template_identity : forall (cmd : list str) (d : tdict),
+  keys_at d = true -> forallb no_at cmd = true -> substitute_values cmd d = SOk cmd.
+Proof. exact substitute_values_identity. Qed.
+Print Assumptions C03_template_identity.
+
+(* ... so eval_custom_target_command does the backslash normalisation and nothing else to it *)
+Theorem C03_custom_command_only_rewrites : forall (sr br cs : str) (d : tdict) (cmd : list str),
+  keys_at d = true -> forallb no_at cmd = true ->
+  eval_custom_cmd sr br cs d cmd = SOk (map bs_norm cmd).
+Proof. exact eval_custom_cmd_plain. Qed.
+Print Assumptions C03_custom_command_only_rewrites.
+
+(* an element that is exactly @INPUT@ / @OUTPUT@ is replaced in place by all the files *)
+Theorem C03_list_template_in_place : forall (d : tdict) (k : str) (l : list str),
+  tlookup d k = Some (TList l) ->
+  forall a b a' b', sub_cmd d a = Some a' -> sub_cmd d b = Some b' ->
+  sub_cmd d (a ++ k :: b) = Some (a' ++ l ++ b').
+Proof. exact sub_cmd_list_template. Qed.
+Print Assumptions C03_list_template_in_place.
+
+(* a placeholder inside a string is replaced by its value and the value is not rescanned *)
+Theorem C03_placeholder_not_rescanned : forall (d : tdict) (k v r : str),
+  k <> [] -> try_keys d (k ++ r) = Some (TStr v, length k) ->
+  sub_go d O (k ++ r) = option_map (app v) (sub_go d O r).
+Proof. exact sub_go_placeholder. Qed.
+Print Assumptions C03_placeholder_not_rescanned.
+
+(* "or to a test()": no quoting layer; the arguments are passed as they are, contiguous and in
+   order, behind the (wrapper +) test program and before --test-args *)
+Theorem C03_test_args_unchanged : forall w f a t : list str,
+  test_cmdline w f a t = (w ++ f) ++ a ++ t /\ (w = [] -> t = [] -> test_cmdline w f a t = f ++ a).
+Proof. exact test_cmdline_args. Qed.
+Print Assumptions C03_test_args_unchanged.
